@@ -1,11 +1,87 @@
 import Sourmash.Model.MinHash
+import Sourmash.Model.Scaled
 /-!
 Model/Md5Cache.lean — the two-sketch machine of property C13: every operation that the property's
-quantifier names (md5sum / clone / == interleaved with add, add-with-abundance, set, remove,
-remove_many, clear, merge, inflate, enable/disable abundance) acting on a *target* sketch with a
-second sketch as the operand of the binary ones.  The driver `Driver/C13.lean` runs exactly these
-step functions; `Theorems/C13.lean` quantifies over all command lists.
+quantifier names (md5sum / clone / == interleaved with EVERY mutating entry point of the two sketch
+types) acting on a *target* sketch with a second sketch as the operand of the binary ones.
+
+Mutating entry points covered (`minhash.rs`, `signature.rs` `SigsTrait`, `ffi/minhash.rs`):
+add_hash / add_hash_with_abundance, set_hash_with_abundance, add_many, add_many_with_abund,
+add_from, remove_hash, remove_many, remove_from, add_word / add_sequence / add_protein (a list of
+hashes added in order, possibly followed by a failure that leaves the hashes already added in the
+sketch), clear, merge, inflate, enable/disable abundance, downsample_scaled / downsample_max_hash
+(a NEW sketch, or the moved one), the serde round trip, the `From` conversions vector↔tree, and the
+C entry point `kmerminhash_set_abundances` (the other `kmerminhash_*` mutators delegate one-to-one
+to a method above).
+
+The driver `Driver/C13.lean` runs exactly these step functions; `Theorems/C13.lean` quantifies over
+all command lists.
 -/
+namespace MH
+
+/-! ### entry points that need `scaled_for_max_hash` / `max_hash_for_scaled` -/
+
+/-- the `max_hash` of `KmerMinHash::new(other.scaled(), …)`: `max_hash_for_scaled(scaled_for_max_hash(m))` -/
+def reMaxHash (m : Nat) : Nat := Scaled.maxHashForScaled (Scaled.scaledForMaxHash m)
+
+/-- `downsample_scaled(self, scaled)`: the moved sketch itself (cache and all) when nothing changes,
+    an error when `scaled` is smaller, else a NEW sketch filled through `add_many[_with_abund]` -/
+def Vec.downsampleScaled (s : Vec) (scaled : Nat) : Except String Vec :=
+  let cur := Scaled.scaledForMaxHash s.maxHash
+  if cur == scaled || cur == 0 then .ok s
+  else if cur > scaled then .error "CannotUpsampleScaled"
+  else
+    let n := Vec.new s.num (Scaled.maxHashForScaled scaled) s.abunds.isSome s.ksize
+    .ok (if s.abunds.isSome then n.addManyAbund s.toVecAbunds else n.addMany s.mins)
+
+/-- `downsample_max_hash(self, max_hash)` -/
+def Vec.downsampleMaxHash (s : Vec) (mh : Nat) : Except String Vec :=
+  if s.maxHash == 0 then .ok s else s.downsampleScaled (Scaled.scaledForMaxHash mh)
+
+def Tree.downsampleScaled (s : Tree) (scaled : Nat) : Except String Tree :=
+  let cur := Scaled.scaledForMaxHash s.maxHash
+  if cur == scaled || cur == 0 then .ok s
+  else if cur > scaled then .error "CannotUpsampleScaled"
+  else
+    let n := Tree.new s.num (Scaled.maxHashForScaled scaled) s.abunds.isSome s.ksize
+    .ok (if s.abunds.isSome then n.addManyAbund s.toVecAbunds else n.addMany s.mins)
+
+def Tree.downsampleMaxHash (s : Tree) (mh : Nat) : Except String Tree :=
+  if s.maxHash == 0 then .ok s else s.downsampleScaled (Scaled.scaledForMaxHash mh)
+
+/-- `impl From<KmerMinHashBTree> for KmerMinHash` (and `From<&KmerMinHashBTree>`): a new sketch
+    (empty cache) that is handed the hashes and the abundance values -/
+def Tree.toVec (t : Tree) : Vec :=
+  { num := t.num, maxHash := reMaxHash t.maxHash, ksize := t.ksize, mins := t.mins,
+    abunds := t.abundVals, md5 := none }
+
+/-- `impl From<KmerMinHash> for KmerMinHashBTree` -/
+def Vec.toTree (v : Vec) : Tree :=
+  { num := v.num, maxHash := reMaxHash v.maxHash, ksize := v.ksize, mins := v.mins,
+    abunds := v.abunds.map (fun a => v.mins.zip a), currentMax := lastOr0 v.mins, md5 := none }
+
+/-- serde round trip `from_str(to_string(self))`: `(loaded, self after serialising)`.  `Serialize`
+    writes `self.md5sum()` (filling the cache); `Deserialize` stores the string it reads as the
+    cache and sets `num = 0` when `max_hash != 0`. -/
+def Vec.serde (s : Vec) : Vec × Vec :=
+  let (d, s') := s.md5sum
+  ({ s with md5 := some d, num := if s.maxHash != 0 then 0 else s.num }, s')
+
+def Tree.serde (s : Tree) : Tree × Tree :=
+  let (d, s') := s.md5sum
+  ({ s with md5 := some d, num := if s.maxHash != 0 then 0 else s.num, currentMax := lastOr0 s.mins }, s')
+
+/-- `pairs.sort_unstable()` on `(hash, abundance)` tuples -/
+def sortPairs (ps : List (Nat × Nat)) : List (Nat × Nat) :=
+  ps.mergeSort (fun a b => a.1 < b.1 || (a.1 == b.1 && a.2 ≤ b.2))
+
+/-- `kmerminhash_set_abundances(ptr, hashes, abunds, n, clear)`: sort the pairs, `clear()` when asked,
+    `add_many_with_abund` -/
+def Vec.setAbundances (s : Vec) (ps : List (Nat × Nat)) (clear : Bool) : Vec :=
+  (if clear then s.clear else s).addManyAbund (sortPairs ps)
+
+end MH
+
 namespace Md5Cache
 open MH
 
@@ -22,11 +98,25 @@ inductive Op
   | md5                        -- target.md5sum()
   | clone                      -- target := target.clone()
   | copy                       -- operand := target.clone()
+  | addMany (hs : List Nat)                    -- add_many / kmerminhash_add_many
+  | addManyAbund (ps : List (Nat × Nat))       -- add_many_with_abund
+  | addFrom                                    -- target.add_from(&operand)
+  | removeFrom                                 -- vector type only: target.remove_from(&operand)
+  | addSeq (hs : List Nat) (err : Option String)
+      -- add_sequence / add_protein / add_word: the hashes the input contributes, added in order;
+      -- `err = some e`: the call then fails with `e` (the hashes before the failure stay)
+  | setAbundances (ps : List (Nat × Nat)) (clear : Bool)   -- C API, vector type only
+  | downScaled (scaled : Nat)  -- target := target.clone().downsample_scaled(scaled)   (target kept on error)
+  | downMaxHash (mh : Nat)     -- target := target.clone().downsample_max_hash(mh)
+  | downMove (scaled : Nat)    -- target := target.downsample_scaled(scaled), a new empty sketch on error
+  | serde                      -- target := from_str(to_string(&target))
 
-/-- a command: an op on the main sketch (`onOther = false`) or on the second one, or `main == other` -/
+/-- a command: an op on the main sketch (`onOther = false`) or on the second one, `main == other`, or
+    `other == main` -/
 inductive Cmd
   | on (onOther : Bool) (op : Op)
   | eq
+  | eqRev
 
 inductive Out
   | mins (l : List Nat)
@@ -34,6 +124,8 @@ inductive Out
   | digest (d : Digest)
   | bool (b : Bool)
   | badOp
+  | errMins (e : String) (l : List Nat)   -- a failed call and what the sketch holds afterwards
+  | mins2 (a b : List Nat)
 
 /-! ### vector type -/
 
@@ -62,6 +154,31 @@ def vecOp (t s : Vec) : Op → Vec × Vec × Out
   | .md5 => let r := t.md5sum; (r.2, s, .digest r.1)
   | .clone => let c := t.clone.1; (c, s, .digest c.md5sum.1)
   | .copy => let r := t.clone; (r.2, r.1, .digest r.1.md5sum.1)
+  | .addMany hs => let t' := t.addMany hs; (t', s, .mins t'.mins)
+  | .addManyAbund ps => let t' := t.addManyAbund ps; (t', s, .mins t'.mins)
+  | .addFrom => let t' := t.addFrom s; (t', s, .mins t'.mins)
+  | .removeFrom => let t' := t.removeFrom s; (t', s, .mins t'.mins)
+  | .addSeq hs err =>
+    let t' := t.addMany hs
+    match err with
+    | none => (t', s, .mins t'.mins)
+    | some e => (t', s, .errMins e t'.mins)
+  | .setAbundances ps c => let t' := t.setAbundances ps c; (t', s, .mins t'.mins)
+  | .downScaled sc =>
+    let r := t.clone
+    match r.1.downsampleScaled sc with
+    | .ok t' => (t', s, .mins t'.mins)
+    | .error e => (r.2, s, .err e)
+  | .downMaxHash mh =>
+    let r := t.clone
+    match r.1.downsampleMaxHash mh with
+    | .ok t' => (t', s, .mins t'.mins)
+    | .error e => (r.2, s, .err e)
+  | .downMove sc =>
+    match t.downsampleScaled sc with
+    | .ok t' => (t', s, .mins t'.mins)
+    | .error e => (Vec.new t.num (reMaxHash t.maxHash) t.abunds.isSome t.ksize, s, .errMins e [])
+  | .serde => let t' := t.serde.1; (t', s, .mins t'.mins)
 
 structure VPair where
   main : Vec
@@ -71,6 +188,7 @@ def VPair.step (p : VPair) : Cmd → VPair × Out
   | .on false op => let r := vecOp p.main p.other op; (⟨r.1, r.2.1⟩, r.2.2)
   | .on true op => let r := vecOp p.other p.main op; (⟨r.2.1, r.1⟩, r.2.2)
   | .eq => let r := p.main.eq p.other; (⟨r.2.1, r.2.2⟩, .bool r.1)
+  | .eqRev => let r := p.other.eq p.main; (⟨r.2.2, r.2.1⟩, .bool r.1)
 
 def VPair.run (p : VPair) (cs : List Cmd) : VPair := cs.foldl (fun p c => (p.step c).1) p
 
@@ -95,6 +213,31 @@ def treeOp (t s : Tree) : Op → Tree × Tree × Out
   | .md5 => let r := t.md5sum; (r.2, s, .digest r.1)
   | .clone => let c := t.clone.1; (c, s, .digest c.md5sum.1)
   | .copy => let r := t.clone; (r.2, r.1, .digest r.1.md5sum.1)
+  | .addMany hs => let t' := t.addMany hs; (t', s, .mins t'.mins)
+  | .addManyAbund ps => let t' := t.addManyAbund ps; (t', s, .mins t'.mins)
+  | .addFrom => let t' := t.addFrom s; (t', s, .mins t'.mins)
+  | .removeFrom => (t, s, .badOp)
+  | .addSeq hs err =>
+    let t' := t.addMany hs
+    match err with
+    | none => (t', s, .mins t'.mins)
+    | some e => (t', s, .errMins e t'.mins)
+  | .setAbundances _ _ => (t, s, .badOp)
+  | .downScaled sc =>
+    let r := t.clone
+    match r.1.downsampleScaled sc with
+    | .ok t' => (t', s, .mins t'.mins)
+    | .error e => (r.2, s, .err e)
+  | .downMaxHash mh =>
+    let r := t.clone
+    match r.1.downsampleMaxHash mh with
+    | .ok t' => (t', s, .mins t'.mins)
+    | .error e => (r.2, s, .err e)
+  | .downMove sc =>
+    match t.downsampleScaled sc with
+    | .ok t' => (t', s, .mins t'.mins)
+    | .error e => (Tree.new t.num (reMaxHash t.maxHash) t.abunds.isSome t.ksize, s, .errMins e [])
+  | .serde => let t' := t.serde.1; (t', s, .mins t'.mins)
 
 structure TPair where
   main : Tree
@@ -104,7 +247,28 @@ def TPair.step (p : TPair) : Cmd → TPair × Out
   | .on false op => let r := treeOp p.main p.other op; (⟨r.1, r.2.1⟩, r.2.2)
   | .on true op => let r := treeOp p.other p.main op; (⟨r.2.1, r.1⟩, r.2.2)
   | .eq => let r := p.main.eq p.other; (⟨r.2.1, r.2.2⟩, .bool r.1)
+  | .eqRev => let r := p.other.eq p.main; (⟨r.2.2, r.2.1⟩, .bool r.1)
 
 def TPair.run (p : TPair) (cs : List Cmd) : TPair := cs.foldl (fun p c => (p.step c).1) p
+
+/-! ### both types, with the `From` conversions between them -/
+
+inductive Pair
+  | v (p : VPair)
+  | t (p : TPair)
+
+/-- a command of the mixed machine: a command on the pair as it is, or "convert both sketches to the
+    other type" (`KmerMinHash::from(tree)` / `KmerMinHashBTree::from(vec)`) -/
+inductive PCmd
+  | cmd (c : Cmd)
+  | conv
+
+def Pair.step : Pair → PCmd → Pair × Out
+  | .v q, .cmd c => let r := q.step c; (.v r.1, r.2)
+  | .t q, .cmd c => let r := q.step c; (.t r.1, r.2)
+  | .v q, .conv => (.t ⟨q.main.toTree, q.other.toTree⟩, .mins2 q.main.mins q.other.mins)
+  | .t q, .conv => (.v ⟨q.main.toVec, q.other.toVec⟩, .mins2 q.main.mins q.other.mins)
+
+def Pair.run (p : Pair) (cs : List PCmd) : Pair := cs.foldl (fun p c => (p.step c).1) p
 
 end Md5Cache
